@@ -45,6 +45,17 @@ class CallMixin:
                 finally:
                     st.guards.pop()
                 return VBool(z3.Implies(a, b))
+            if self.in_spec and f.id in self.reg.lemmas:
+                lm = self.reg.lemmas[f.id]
+                args = [self.eval(a, st) for a in e.args]
+                tmp = st.copy()
+                tmp.locals = dict(st.locals)
+                for (pn, pt), av in zip(lm.params.items(), args):
+                    tmp.locals[pn] = coerce(av, parse_type(pt), f"lemma argument {pn}")
+                hy = [truthy(self.eval(ast.parse(r, mode="eval").body, tmp)) for r in lm.requires]
+                cs = [truthy(self.eval(ast.parse(r, mode="eval").body, tmp)) for r in lm.ensures]
+                self.assumed_lemmas.add(lm.name)
+                return VBool(z3.Implies(z3.And(hy) if hy else z3.BoolVal(True), z3.And(cs)))
             if f.id == "sorted" and e.keywords:
                 return self.lib_sorted(e, st)
         if isinstance(f, ast.Attribute) and f.attr == "sort" and e.keywords:
@@ -225,6 +236,12 @@ class CallMixin:
         self.assume_wellformed(st, res)
         env2 = dict(env)
         env2["result"] = res
+        for nm, ty in c.exposes.items():
+            xv = fresh(parse_type(ty), f"x_{nm}")
+            self.assume_wellformed(st, xv)
+            env2["_x_" + nm] = xv
+        for d in c.defines:
+            st.assume(self.eval_spec(d, st, env2, pre))
         for ens in c.ensures:
             if isinstance(ens, tuple):
                 ens = ens[0]
